@@ -111,9 +111,20 @@ func scalarZ(f protoreflect.FieldDescriptor, v protoreflect.Value) (string, bool
 		return "0%Z", true
 	case protoreflect.EnumKind:
 		return coqfmt.Z(int64(v.Enum())), true
+	case protoreflect.Sint32Kind, protoreflect.Sint64Kind, protoreflect.Sfixed32Kind, protoreflect.Sfixed64Kind:
+		// a wire type the model does not have (the schema changed under it): keep the VALUE so that the case is
+		// still recorded and judged by the implementation-only oracle; the model will disagree on the bytes
+		outsideModel[string(f.FullName())+" ("+f.Kind().String()+")"] = true
+		return coqfmt.Z(v.Int()), true
+	case protoreflect.Fixed32Kind, protoreflect.Fixed64Kind:
+		outsideModel[string(f.FullName())+" ("+f.Kind().String()+")"] = true
+		return coqfmt.ZU(v.Uint()), true
 	}
 	return "", false
 }
+
+// fields whose kind the Coq codec model does not cover (empty on the pinned schema)
+var outsideModel = map[string]bool{}
 
 // term prints a message as a Model.Proto.value: one value per field in field-number
 // order; map entries sorted by key.  Default values are printed with the abbreviations
@@ -387,6 +398,24 @@ func scalarValues(f protoreflect.FieldDescriptor) []protoreflect.Value {
 		for _, s := range []string{"a", "value", str127, str128, str300, "with \"quotes\" and spaces", "héllo ✓ \U0001F600"} {
 			out = append(out, protoreflect.ValueOfString(s))
 		}
+	case protoreflect.Sint32Kind, protoreflect.Sfixed32Kind:
+		// kinds the pinned schema does not use: still exercised, so that a schema that drifts under one codec only
+		// is judged by the implementation-only oracle instead of stopping the driver
+		for _, v := range []int64{1, -1, 100, -100, math.MaxInt32, math.MinInt32} {
+			out = append(out, protoreflect.ValueOfInt32(int32(v)))
+		}
+	case protoreflect.Sint64Kind, protoreflect.Sfixed64Kind:
+		for _, v := range []int64{1, -1, 100, -100, math.MaxInt64, math.MinInt64} {
+			out = append(out, protoreflect.ValueOfInt64(v))
+		}
+	case protoreflect.Fixed32Kind:
+		for _, v := range []uint32{1, 100, math.MaxUint32} {
+			out = append(out, protoreflect.ValueOfUint32(v))
+		}
+	case protoreflect.Fixed64Kind:
+		for _, v := range []uint64{1, 100, math.MaxUint64} {
+			out = append(out, protoreflect.ValueOfUint64(v))
+		}
 	default:
 		panic(fmt.Sprintf("h_proto: scalar kind %s of %s is outside the model", f.Kind(), f.FullName()))
 	}
@@ -556,6 +585,14 @@ func randScalar(f protoreflect.FieldDescriptor, r *rand.Rand) protoreflect.Value
 		return protoreflect.ValueOfUint64(u)
 	case protoreflect.BoolKind:
 		return protoreflect.ValueOfBool(u&1 == 1)
+	case protoreflect.Sint32Kind, protoreflect.Sfixed32Kind:
+		return protoreflect.ValueOfInt32(int32(u))
+	case protoreflect.Sint64Kind, protoreflect.Sfixed64Kind:
+		return protoreflect.ValueOfInt64(int64(u))
+	case protoreflect.Fixed32Kind:
+		return protoreflect.ValueOfUint32(uint32(u))
+	case protoreflect.Fixed64Kind:
+		return protoreflect.ValueOfUint64(u)
 	}
 	panic(fmt.Sprintf("h_proto: scalar kind %s of %s is outside the model", f.Kind(), f.FullName()))
 }
@@ -1045,6 +1082,9 @@ func driveProto(c *hx.Ctx) error {
 
 	observeInvalidUTF8(c)
 
+	for f := range outsideModel {
+		c.Count("field_kind_outside_model."+f, 1)
+	}
 	c.Stats.Rule = fmt.Sprintf("all %d message types of the compiled descriptor (%d with generated MarshalVT/UnmarshalVT/SizeVT, compared against both codecs); "+
 		"single: every field alone over the boundary values of its kind (varint length edges, +-1, min/max of the Go type, strings of 127/128/300 bytes and multi-byte UTF-8), "+
 		"sub-messages absent / present-empty / each sub-field alone / optional wrappers unset, zero and set, repeated and map shapes incl. empty keys and values; "+
